@@ -157,7 +157,9 @@ def norm_operand(o):
         o.setdefault("lab", "")
     if t == "l":
         o.setdefault("add", 0)
-    for junk in ("sty", "hd", "showsc"):
+    if t == "i":
+        o.setdefault("sty", "d")
+    for junk in ("hd", "showsc") + (("sty",) if t != "i" else ()):
         o.pop(junk, None)
     return o
 
